@@ -5,7 +5,8 @@
              `query_by_guids`; executes the GENERATED `Gen.bins` and `Gen.SingleInterval_parent_to_relative_pos`)
   Spec     : Spec/Query.lean    (membership clause `keepSpec`, documented bounds, sequence restriction, set-builder
              specs of the id queries; no bins)
-  Lemmas   : Proofs/QueryKept, QueryResult, QueryBounds, QueryMain, QueryPos, QueryFindings, QueryIds
+  Lemmas   : Proofs/QueryKept, QueryResult, QueryBounds, QueryMain, QueryPos, QueryFindings, QueryIds,
+             QueryIntervals, QueryIntervals2, QueryTies
 
   T1  position queries keep exactly `specFilter` — the bin pre-filter never changes the answer (this is where the
       C16 theorems `never_hides_bed`, `bins_one_bed`, `bins_all_is_set` about the generated kernel are used);
@@ -18,6 +19,9 @@
       the `meets` theorems are stated on the complement (their hypotheses say exactly which inputs are excluded).
 -/
 import BioCantor.Proofs.QueryFindings
+import BioCantor.Proofs.QueryIds
+import BioCantor.Proofs.QueryIntervals2
+import BioCantor.Proofs.QueryTies
 import BioCantor.Props.C16
 namespace BioCantor.Props.C09
 open BioCantor BioCantor.Spec BioCantor.Spec.Query BioCantor.Model.Query BioCantor.Proofs.Query
@@ -61,6 +65,12 @@ theorem overlap_kernel (s e a b : Int) (h1 : s ≤ e) (h2 : a ≤ b) :
 theorem contains_kernel (s e a b : Int) (h : s < e) (h2 : a ≤ b) :
     containsInt (s, e) (a, b) = decide (s ≤ a ∧ b ≤ e ∧ a < b) := containsInt_iff s e a b h h2
 
+/-- the span kernel used here is the shared model of `SingleInterval._has_overlap_single_interval` (Model/Location,
+    C01/C02) on valid blocks -/
+theorem overlap_kernel_is_location_kernel (a b : Blk) (ha : a.1 ≤ a.2) (hb : b.1 ≤ b.2) :
+    overlapInt ((a.1 : Int), (a.2 : Int)) ((b.1 : Int), (b.2 : Int)) = Model.overlapKernel a b :=
+  overlapInt_eq_overlapKernel a b ha hb
+
 /-! ## T2 — bounds, the re-chunked parent, member sequences -/
 
 /-- T2a: whole-chromosome source: `_subset_parent(start, end)` = the stretch `[start,end)` of the sequence. -/
@@ -78,6 +88,13 @@ theorem subset_parent_chunk (src : Source) (cs : Int) (seq : List Char) (hp : sr
       .ok (if start = cs ∧ stop = cs + seq.length then .chunk cs (cs + seq.length) seq
            else .chunk start stop (slice seq (start - cs) (stop - cs))) :=
   subsetParent_chunk src cs seq hp hb hcs start stop h
+
+/-- T2b': declaratively — the sequence cut for `[start, stop)` holds, at every chromosome position `p` of the new
+    range, the source's base at `p` (`lo` = chromosome position of the source sequence's first base). -/
+theorem new_chunk_base_at (lo : Int) (seq : List Char) (start stop p : Int) (h0 : lo ≤ start)
+    (hp : start ≤ p ∧ p < stop) :
+    (stretch lo seq start stop)[(p - start).toNat]? = seq[(p - lo).toNat]? :=
+  stretch_base lo seq start stop p h0 hp
 
 /-- T2c: a member's sequence computed the model's way (lift onto the new chunk, slice the chunk's sequence) is the
     spec's (bases of the member ∩ new range read at chromosome coordinates). -/
@@ -149,6 +166,78 @@ example : okQueryByPosition exW ⟨some 4, some 7, false, false, false⟩
     (toAns (queryByPosition exW ⟨some 4, some 7, false, false, false⟩)) = true :=
   query_by_position_meets_spec exW _ exW_wf (0, 12) rfl (by intro h; cases h)
 
+/-! ## T3 — GUID / identifier queries are their set-builder specifications -/
+
+/-- T3a: `query_by_guids(ids)` (ids a set) returns exactly { c | c.guid ∈ ids }: unchanged members, bounds = the
+    source bounds widened to the kept members, the source's sequence.  `hin` excludes only F-C09c (a kept member
+    reaching beyond the sequence chunk); for whole-chromosome sources it holds by construction. -/
+theorem query_by_guids_meets_spec (src : Source) (wf : SrcWF src) (ids : List Nat) (hids : ids.Nodup) (bs be : Int)
+    (hb : selfBounds src = some (bs, be)) (hne : src.par.hasSeq = true → bs < be)
+    (hin : src.par.hasSeq = true → ∀ c ∈ src.children, bs ≤ c.start ∧ c.stop ≤ be) :
+    okQueryByGuids src ids (toAns (queryByGuids src ids)) = true :=
+  queryByGuids_meets src wf ids hids bs be hb hne hin
+
+/-- T3b: `query_by_feature_identifiers(ids)` returns exactly { c | c.identifiers ∩ ids ≠ ∅ }. -/
+theorem query_by_identifiers_meets_spec (src : Source) (wf : SrcWF src) (ids : List (List Char)) (bs be : Int)
+    (hb : selfBounds src = some (bs, be)) (hne : src.par.hasSeq = true → bs < be)
+    (hin : src.par.hasSeq = true → ∀ c ∈ src.children, bs ≤ c.start ∧ c.stop ≤ be) :
+    okQueryByIdentifiers src ids (toAns (queryByIdentifiers src ids)) = true :=
+  queryByIdentifiers_meets src wf ids bs be hb hne hin
+
+example : okQueryByGuids exW [2, 999] (toAns (queryByGuids exW [2, 999])) = true :=
+  query_by_guids_meets_spec exW exW_wf [2, 999] (by decide) 0 12 rfl (by intro _; decide) (by
+    intro _ c hc
+    simp only [exW, List.mem_cons, List.not_mem_nil, or_false] at hc
+    rcases hc with rfl | rfl <;> decide)
+
+/-- T3c: `query_by_interval_guids` (kinds = all), `query_by_transcript_interval_guids` (kinds = [gene]),
+    `query_by_feature_interval_guids` (kinds = [feat]) return exactly the children of a requested kind owning a
+    requested grandchild, each keeping ONLY its requested grandchildren (span = their hull, same guid and
+    identifiers).  `GcWF`: grandchild guids are distinct and owned by one child.  Stated for genes and feature
+    collections (`hnv`); variant collections (sorted / overlap check of `VariantIntervalCollection.__init__`) rest on
+    the correspondence run — full statement: the same without `hnv`, for sources whose variant lists are
+    start-sorted and non-overlapping. -/
+theorem query_by_interval_guids_meets_spec_partial (src : Source) (wf : SrcWF src) (gw : GcWF src) (kinds : List Kind)
+    (ids : List Nat) (hids : ids.Nodup) (hnv : ∀ c ∈ src.children, c.kind ≠ .var) (bs be : Int)
+    (hb : selfBounds src = some (bs, be)) (hne : src.par.hasSeq = true → bs < be)
+    (hin : src.par.hasSeq = true → ∀ c ∈ src.children, bs ≤ c.start ∧ c.stop ≤ be) :
+    okQueryByIntervalGuids src kinds ids (toAns (queryByIntervalGuids src kinds ids)) = true :=
+  queryByIntervalGuids_meets src wf gw kinds ids hids hnv bs be hb hne hin
+
+/-- T3d: `GeneInterval.query_by_guids` / `FeatureIntervalCollection.query_by_guids`: `None` iff nothing is
+    requested, else the same child reduced to the requested grandchildren on the unchanged parent. -/
+theorem child_query_by_guids_meets_spec (src : Source) (wf : SrcWF src) (gw : GcWF src) (c : Child)
+    (hc : c ∈ src.children) (hk : c.kind ≠ .var) (ids : List Nat) (hids : ids.Nodup) :
+    okChildQueryByGuids src c ids (toCAns (childQueryResult src c ids)) = true :=
+  childQuery_meets src wf gw c hc hk ids hids
+
+theorem exW_gcwf : GcWF exW := by
+  refine ⟨?_, ?_⟩
+  · intro c hc
+    simp only [exW, List.mem_cons, List.not_mem_nil, or_false] at hc
+    rcases hc with rfl | rfl <;> decide
+  · intro c hc c2 hc2 x hx x2 hx2 hg
+    simp only [exW, List.mem_cons, List.not_mem_nil, or_false] at hc hc2
+    rcases hc with rfl | rfl <;> rcases hc2 with rfl | rfl
+    · rfl
+    · simp only [exGene, exFeat, exG1, exG2, List.mem_cons, List.not_mem_nil, or_false] at hx hx2
+      rcases hx with rfl | rfl <;> subst hx2 <;> simp at hg
+    · simp only [exGene, exFeat, exG1, exG2, List.mem_cons, List.not_mem_nil, or_false] at hx hx2
+      rcases hx2 with rfl | rfl <;> subst hx <;> simp at hg
+    · rfl
+
+example : okQueryByIntervalGuids exW [.gene, .feat, .var] [1001, 1100]
+    (toAns (queryByIntervalGuids exW [.gene, .feat, .var] [1001, 1100])) = true :=
+  query_by_interval_guids_meets_spec_partial exW exW_wf exW_gcwf _ [1001, 1100] (by decide)
+    (by
+      intro c hc
+      simp only [exW, List.mem_cons, List.not_mem_nil, or_false] at hc
+      rcases hc with rfl | rfl <;> decide)
+    0 12 rfl (by intro _; decide) (by
+      intro _ c hc
+      simp only [exW, List.mem_cons, List.not_mem_nil, or_false] at hc
+      rcases hc with rfl | rfl <;> decide)
+
 /-! ## F — the modelled current code deviates on the finding inputs -/
 
 /-- F-C09a (general): `coding_only=True` on a collection holding a VariantIntervalCollection ends in
@@ -173,5 +262,54 @@ theorem F_C09b_sequence_less_parent :
 theorem F_C09c_end_clamp :
     subsetParent exK 2 10 = .ok (.chunk 3 8 ['T','T','G','C','A'])
     ∧ expectPar exK.par 2 10 = .chunk 3 9 ['T','T','G','C','A','A'] := ⟨rfl, by decide⟩
+
+/-! ## more non-vacuity: the theorems above instantiated on concrete non-trivial inputs -/
+
+theorem exW_childwf : ∀ c ∈ exW.children, ChildWF c := fun c hc => (exW_wf.hull c hc).wf
+
+example : queryKept exW 3 9 true false = .ok (specFilter (iterChildren exW) false true 3 9) :=
+  query_kept_is_specFilter exW 3 9 true false (by decide) (by decide) exW_childwf (by intro h; cases h)
+
+example : ∃ S, Gen.bins 2 9 .bed false = .ok (.many S) ∧ anyBinIn S exGene.gcs = .ok true := by
+  obtain ⟨S, hS⟩ := Props.C16.bins_all_is_set 2 9 .bed
+  exact ⟨S, hS, prefilter_never_hides_kept 2 9 S exGene (exW_childwf exGene (by decide)) (by decide) hS (by decide)⟩
+
+example : validate exW (some 12) (some 12) = .error (.doc .InvalidQuery) := by
+  rw [rejected_ranges_exact exW (some 12) (some 12) 0 12 rfl]; rfl
+
+example : subsetParent exW 4 7 = .ok (.chunk 4 7 ['T','G','C']) :=
+  subset_parent_whole exW exSeq rfl rfl 4 7 (by decide)
+
+example : subsetParent exK 4 7 = .ok (.chunk 4 7 ['T','G','C']) :=
+  subset_parent_chunk exK 3 _ rfl rfl (by decide) 4 7 (by decide)
+
+example : (memberSeq (.chunk 4 7 ['T','G','C']) exG2).norm = (expectMSeq (.chunk 4 7 ['T','G','C']) exG2).norm :=
+  member_sequence _ exG2 (by decide) (by decide)
+
+example : (stretch 3 ['T','T','G','C','A','A'] 4 7)[(5 - 4 : Int).toNat]? = ['T','T','G','C','A','A'][(5 - 3 : Int).toNat]? :=
+  new_chunk_base_at 3 _ 4 7 5 (by decide) (by decide)
+
+example : okQueryByIdentifiers exW [['b'], ['z']] (toAns (queryByIdentifiers exW [['b'], ['z']])) = true :=
+  query_by_identifiers_meets_spec exW exW_wf _ 0 12 rfl (by intro _; decide) (by
+    intro _ c hc
+    simp only [exW, List.mem_cons, List.not_mem_nil, or_false] at hc
+    rcases hc with rfl | rfl <;> decide)
+
+example : okChildQueryByGuids exW exGene [1001] (toCAns (childQueryResult exW exGene [1001])) = true :=
+  child_query_by_guids_meets_spec exW exW_wf exW_gcwf exGene (by decide) (by decide) [1001] (by decide)
+
+def exVar : Child := ⟨.var, 9, 10, false, 3, [], [⟨9, 10, .plus, 1200⟩]⟩
+def exN : Source := ⟨.none, some (0, 12), [exGene, exVar]⟩
+
+example : queryKept exN 1 12 true true = .error .attributeError :=
+  F_C09a_coding_only_with_variants exN 1 12 true (by decide) (by decide)
+    (by
+      intro c hc
+      simp only [exN, List.mem_cons, List.not_mem_nil, or_false] at hc
+      rcases hc with rfl | rfl <;> exact ⟨by decide, by decide⟩)
+    ⟨exVar, by decide, rfl⟩
+
+example : overlapInt ((2 : Nat), (8 : Nat)) ((6 : Nat), (10 : Nat)) = Model.overlapKernel (2, 8) (6, 10) :=
+  overlap_kernel_is_location_kernel (2, 8) (6, 10) (by decide) (by decide)
 
 end BioCantor.Props.C09
